@@ -1043,6 +1043,7 @@ pub fn handle(st: &mut State, line: &str) -> String {
             "SE" => crate::stream::encode_1(st, &mut t),
             "SV" => crate::stream::serve(st, &mut t),
             "SVBIG" => crate::stream::serve_big(st, &mut t),
+            "SVP" => crate::stream::serve_parked(st, &mut t),
             "SDN" => crate::stream::decode_n_notime(st, &mut t),
             "SDP" => crate::stream::decode_n_parked(st, &mut t),
             "SDX" => crate::stream::decode_n_hopping(st, &mut t),
